@@ -267,6 +267,7 @@ func (bf *buffer) Read(p []byte) (int, error) {
 		bf.ccond.L.Lock()
 		for ppos = bf.pseq.get(); cpos >= ppos; ppos = bf.pseq.get() {
 			if bf.isDone() {
+				bf.ccond.L.Unlock()
 				return 0, io.EOF
 			}
 
@@ -325,6 +326,7 @@ func (bf *buffer) ReadPeek(n int) ([]byte, error) {
 	bf.ccond.L.Lock()
 	for ; cpos >= ppos; ppos = bf.pseq.get() {
 		if bf.isDone() {
+			bf.ccond.L.Unlock()
 			return nil, io.EOF
 		}
 
@@ -390,6 +392,7 @@ func (bf *buffer) ReadWait(n int) ([]byte, error) {
 	bf.ccond.L.Lock()
 	for ; next > ppos; ppos = bf.pseq.get() {
 		if bf.isDone() {
+			bf.ccond.L.Unlock()
 			return nil, io.EOF
 		}
 
@@ -546,6 +549,7 @@ func (bf *buffer) waitForWriteSpace(n int) (int64, int, error) {
 		bf.pcond.L.Lock()
 		for cpos = bf.cseq.get(); wrap > cpos; cpos = bf.cseq.get() {
 			if bf.isDone() {
+				bf.pcond.L.Unlock()
 				return 0, 0, io.EOF
 			}
 
